@@ -485,6 +485,13 @@ where
     for step in 0..MAX_STEPS {
         stats.walk_steps = step + 1;
 
+        // verification hook (inert unless armed): behave as if the walk budget were exhausted at
+        // this step, so that the scan fallback is reachable on small triangulations
+        #[cfg(feature = "verif-hooks")]
+        if crate::verif_hooks::hit("locate.step_limit") {
+            break;
+        }
+
         if !visited.insert(current_cell) {
             stats.fallback = Some(LocateFallback {
                 reason: LocateFallbackReason::CycleDetected,
